@@ -51,7 +51,10 @@ func (f *FMPURI) UseTLS() bool {
 }
 
 func (f *FMPURI) String() string {
-	return fmt.Sprintf("%s://%s", f.Scheme, f.HostPort)
+	// url.Parse has unescaped the host (an IPv6 zone arrives as
+	// "[fe80::1%eth0]"); let net/url escape it again so that the
+	// result parses back.
+	return (&url.URL{Scheme: f.Scheme, Host: f.HostPort}).String()
 }
 
 func (f *FMPURI) DialWithConfig(config *tls.Config) (net.Conn, error) {
